@@ -507,6 +507,8 @@ Next == /\ (MaxOps > 0 => Len(hist) < MaxOps)
            \/ Crash \/ Restart \/ Close
 
 Spec == Init /\ [][Next]_vars
+\* the binlog writer keeps running (for the liveness property below)
+FairSpec == Spec /\ WF_vars(BlWrite) /\ WF_vars(BlSync) /\ WF_vars(BlCommit)
 
 -------------------------------------------------------------------------------
 (* PROPERTY *)
@@ -561,6 +563,10 @@ CommitInfoSound == cinfo <= EndOff(blog, synced)
 Monotone == [][ /\ dbC'.off >= dbC.off
                 /\ IsPrefix(dbC.app, dbC'.app)
                 /\ (up = "up" /\ up' = "up" => cinfo' >= cinfo) ]_vars
+
+(* liveness (WaitCommit): a Do that waits for the binlog commit is eventually acknowledged,
+   unless the process is killed first *)
+WaitersServed == \A w \in Writes : (cl[w] = "waiting") ~> (cl[w] \in {"done", "lost"})
 
 Export == PrintT(<<"BEH", ToJson(hist')>>)
 ExportEnd == IF Len(hist') >= MaxOps THEN PrintT(<<"BEH", ToJson(hist')>>) ELSE TRUE
